@@ -59,7 +59,10 @@ EXTRA_OPS = [['again0', 'G'], ['again0', 'D3'], ['again0', 'A'], ['dec1', 'A'], 
              # loaded from there (same template names, other equations and values)
              ['runc', 'A'], ['runc', 'G'], ['runc', 'D3'], ['ydump', 'YA'], ['ydump', 'YB'],
              # the same, but the file is written by the user (not through to_yaml) after clear_frontend_caches()
-             ['yfile', 'YA'], ['yfile', 'YB']]
+             ['yfile', 'YA'], ['yfile', 'YB'],
+             # a population circuit with two parallel plain connections (compiled, recompiled in place, run), and two
+             # depth-2 circuits that share their mid-level circuit OBJECT (update_var on one, compile the other)
+             ['grf1', 'P'], ['again', 'P'], ['runk', 'P'], ['upd', 'H1'], ['grf1', 'H1'], ['grf1', 'H2'], ['grf0', 'H2']]
 
 
 def _scaled(func, factor=1.0):
@@ -113,6 +116,20 @@ def build(model, store):
                               variables={'v': 'output(0.1)', 'u': 'input(0.0)', 'w': 'input(0.0)'})
         return CircuitTemplate(model, nodes={'s': NodeTemplate('s', operators=[so]), 'g': NodeTemplate('g', operators=[to])},
                                edges=[('s/so/x', 'g/to/u', None, {'weight': 2.0})])
+    if model == 'P':
+        from pyrates.frontend.template.population import PopulationTemplate, Connectivity
+        po = OperatorTemplate('po', equations=["d/dt * x = -k*x + u"], variables={'x': 'output(0.5)', 'k': 1.0, 'u': 'input(0.0)'})
+        pe = PopulationTemplate(name='e', node=NodeTemplate('ne', operators=[po]), n=2, params={'po/x': [0.5, 0.8]})
+        pi = PopulationTemplate(name='i', node=NodeTemplate('ni', operators=[po]), n=2, params={'po/k': [2.0, 3.0]})
+        conns = [Connectivity(source='e/po/x', target='i/po/u', weights=np.array([[0.0, 2.0], [1.0, 0.0]])),
+                 Connectivity(source='e/po/x', target='i/po/u', weights=np.array([[0.5, 0.0], [0.0, -1.0]]))]
+        return CircuitTemplate('P', populations={'e': pe, 'i': pi}, connections=conns)
+    if model in ('H1', 'H2'):
+        if 'Hmid' not in store:
+            so = OperatorTemplate('so', equations=["d/dt * x = -k*x"], variables={'x': 'output(0.8)', 'k': 0.5})
+            leaf = CircuitTemplate('leaf', nodes={'a': NodeTemplate('ha', operators=[so]), 'b': NodeTemplate('hb', operators=[so])})
+            store['Hmid'] = CircuitTemplate('mid', circuits={'l1': leaf, 'l2': leaf})
+        return CircuitTemplate(model, circuits={'m': store['Hmid']})
     if model in ('YA', 'YB'):
         eq, x0, kk = ("d/dt * x = -k*x", 1.0, 1.0) if model == 'YA' else ("d/dt * x = -k*x*x + 0.3", 0.5, 2.0)
         op = OperatorTemplate('yo', equations=[eq], variables={'x': f'output({x0})', 'k': kk})
@@ -131,8 +148,8 @@ def inputs_of(model):
     return None
 
 
-OUT = {'YA': 'n/yo/x', 'YB': 'n/yo/x', 'G': 'g2/to/v', 'A': 'n/op/x', 'B': 'n/op/x', 'C': 'n/opc/x', 'D1': 'all/opd/x', 'D3': 'all/opd/x', 'F': 'g/to/v', 'Y': 'n/yop2/x'}
-UPD = {'YA': 'n/yo/k', 'YB': 'n/yo/k', 'G': 's/so/k', 'A': 'n/op/k', 'B': 'n/op/k', 'C': 'n/opc/k', 'D1': 'a/opd/k', 'D3': 'b/opd/k', 'F': 's/so/k', 'Y': 'n/yop2/k'}
+OUT = {'P': 'i/po/x', 'H1': 'm/l1/a/so/x', 'H2': 'm/l1/a/so/x', 'YA': 'n/yo/x', 'YB': 'n/yo/x', 'G': 'g2/to/v', 'A': 'n/op/x', 'B': 'n/op/x', 'C': 'n/opc/x', 'D1': 'all/opd/x', 'D3': 'all/opd/x', 'F': 'g/to/v', 'Y': 'n/yop2/x'}
+UPD = {'P': 'e/po/k', 'H1': 'm/l1/a/so/k', 'H2': 'm/l1/a/so/k', 'YA': 'n/yo/k', 'YB': 'n/yo/k', 'G': 's/so/k', 'A': 'n/op/k', 'B': 'n/op/k', 'C': 'n/opc/k', 'D1': 'a/opd/k', 'D3': 'b/opd/k', 'F': 's/so/k', 'Y': 'n/yop2/k'}
 
 
 def norm_name(n):
@@ -336,6 +353,8 @@ def features(history, i):
         f.add('same_operator_structure')
     if model in ('D1', 'D3') and ({'D1', 'D3'}) & pm:
         f.add('shared_node_template_object')
+    if model in ('H1', 'H2') and ({'H1', 'H2'}) & pm:
+        f.add('shared_mid_level_circuit_object')
     if model in pm:
         f.add('same_model_before')
     if model == 'Y' and 'Y' in pm:
